@@ -217,6 +217,13 @@ def run(c, chk):
     flag_words(c, chk, rid_ctx='R16.6')
     from . import c02 as _c02
     _c02.table_growth(c, chk, 'R16.8')
+    # R16.11: the scanner is shared by all contexts: where one leaves it must not matter to the next
+    if not isinstance(chk, report.SubCheck):
+        chk.rule('R16.11', 'every scan begins in the initial start condition (rule R8.1 of C08): a context is not read as the continuation of a comment another context ended in')
+        from . import c08 as _c08s
+        sub8 = report.SubCheck(chk, 'R16.11', 'C08', only=('R8.1',))
+        _c08s.run(c, sub8)
+        sub8.done('scanner start state')
     # R16.10: "every section instance created later still gets the declared sub-options and defaults"
     from . import c01 as _c01, c08 as _c08
     _c01.section_store(c, _c08.chk_proxy(chk, {'R1.11': 'R16.10'}), sym.Explorer(c.modules, max_visits=2, mod_sets=c.mod_sets, max_paths=60000))
